@@ -1,16 +1,17 @@
 CONSTANTS
   P = 46337
-  Ds = {1, 2}
-  R1s = {1, 2}
-  R2s = {1, 3}
+  Ds = {1}
+  Rs = {1, 3, 4}
   Offs = {0}
-  ExtraFK = {}
+  Ops = {"update", "update_neg"}
+  PdfKinds = {"PDF:S", "DiagPDF:S"}
 INIT Init
 NEXT Next
 CHECK_DEADLOCK FALSE
 PROPERTY Prop_Frame
 INVARIANT Inv_CacheCoherent
 INVARIANT Inv_PdfNormalised
-INVARIANT Inv_ReportedMass
-INVARIANT Inv_Pointwise
+INVARIANT Inv_EntropyKL
+INVARIANT Inv_Update
+INVARIANT Inv_Slice
 INVARIANT Inv_Export
